@@ -7,114 +7,6 @@ From Gen Require Import C05Facts.
 Open Scope string_scope.
 Definition C05_full : Prop := full_for gen_cfg.
 
-(* ---- signature: C05/between-operand-of-isin *)
-(** col('a').between(0, col('b')).isin(True)   emits   "a" BETWEEN 0 AND "b" IN (TRUE) *)
-Theorem C05_refuted_between_operand_of_isin : exists t en, uwf t = true /\ udom en t = true /\ bad gen_cfg en t = true.
-Proof.
-  exists (UIsin (UBetween (UCol "a"%string) (UPy (VInt (0)%Z)) (UCol "b"%string)) [(VBool true)]).
-  exists (mkEnv ["a"%string; "b"%string; "s"%string; "t"%string; "p"%string; "q"%string] [VNull; VNull; VNull; (VStr ""%string); VNull; (VBool true)] [("l"%string, [(VInt (10)%Z); (VInt (20)%Z); (VInt (30)%Z)])]).
-  vm_compute. repeat split.
-Qed.
-Corollary C05_full_false_by_between_operand_of_isin : ~ C05_full.
-Proof. destruct C05_refuted_between_operand_of_isin as (t & en & W & D & B). exact (bad_refutes gen_cfg t en W D B). Qed.
-Print Assumptions C05_full_false_by_between_operand_of_isin.
-
-(* ---- signature: C05/comparison-operand-of-comparison *)
-(** ((col('a') == col('b')) == col('p'))   emits   "a" = "b" = "p" *)
-Theorem C05_refuted_comparison_operand_of_comparison : exists t en, uwf t = true /\ udom en t = true /\ bad gen_cfg en t = true.
-Proof.
-  exists (UBin UEq (UBin UEq (UCol "a"%string) (UCol "b"%string)) (UCol "p"%string)).
-  exists (mkEnv ["a"%string; "b"%string; "s"%string; "t"%string; "p"%string; "q"%string] [VNull; VNull; VNull; (VStr ""%string); VNull; (VBool true)] [("l"%string, [(VInt (10)%Z); (VInt (20)%Z); (VInt (30)%Z)])]).
-  vm_compute. repeat split.
-Qed.
-Corollary C05_full_false_by_comparison_operand_of_comparison : ~ C05_full.
-Proof. destruct C05_refuted_comparison_operand_of_comparison as (t & en & W & D & B). exact (bad_refutes gen_cfg t en W D B). Qed.
-Print Assumptions C05_full_false_by_comparison_operand_of_comparison.
-
-(* ---- signature: C05/comparison-operand-of-isin *)
-(** (col('a') == col('b')).isin(True)   emits   "a" = "b" IN (TRUE) *)
-Theorem C05_refuted_comparison_operand_of_isin : exists t en, uwf t = true /\ udom en t = true /\ bad gen_cfg en t = true.
-Proof.
-  exists (UIsin (UBin UEq (UCol "a"%string) (UCol "b"%string)) [(VBool true)]).
-  exists (mkEnv ["a"%string; "b"%string; "s"%string; "t"%string; "p"%string; "q"%string] [(VInt (0)%Z); (VInt (0)%Z); (VStr "ab"%string); (VStr "ab"%string); (VBool true); (VBool true)] [("l"%string, [])]).
-  vm_compute. repeat split.
-Qed.
-Corollary C05_full_false_by_comparison_operand_of_isin : ~ C05_full.
-Proof. destruct C05_refuted_comparison_operand_of_isin as (t & en & W & D & B). exact (bad_refutes gen_cfg t en W D B). Qed.
-Print Assumptions C05_full_false_by_comparison_operand_of_isin.
-
-(* ---- signature: C05/endswith-unknown-function *)
-(** col('s').endswith('a')   emits   ENDSWITH("s", 'a') *)
-Theorem C05_refuted_endswith_unknown_function : exists t en, uwf t = true /\ udom en t = true /\ bad gen_cfg en t = true.
-Proof.
-  exists (UEndsWith (UCol "s"%string) (UPy (VStr "a"%string))).
-  exists (mkEnv ["a"%string; "b"%string; "s"%string; "t"%string; "p"%string; "q"%string] [VNull; VNull; VNull; (VStr ""%string); VNull; (VBool true)] [("l"%string, [(VInt (10)%Z); (VInt (20)%Z); (VInt (30)%Z)])]).
-  vm_compute. repeat split.
-Qed.
-Corollary C05_full_false_by_endswith_unknown_function : ~ C05_full.
-Proof. destruct C05_refuted_endswith_unknown_function as (t & en & W & D & B). exact (bad_refutes gen_cfg t en W D B). Qed.
-Print Assumptions C05_full_false_by_endswith_unknown_function.
-
-(* ---- signature: C05/eqNullSafe-operand-of-comparison *)
-(** (col('p').eqNullSafe(col('q')) == col('p'))   emits   "p" IS NOT DISTINCT FROM "q" = "p" *)
-Theorem C05_refuted_eqNullSafe_operand_of_comparison : exists t en, uwf t = true /\ udom en t = true /\ bad gen_cfg en t = true.
-Proof.
-  exists (UBin UEq (UNse (UCol "p"%string) (UCol "q"%string)) (UCol "p"%string)).
-  exists (mkEnv ["a"%string; "b"%string; "s"%string; "t"%string; "p"%string; "q"%string] [VNull; VNull; VNull; (VStr ""%string); VNull; (VBool true)] [("l"%string, [(VInt (10)%Z); (VInt (20)%Z); (VInt (30)%Z)])]).
-  vm_compute. repeat split.
-Qed.
-Corollary C05_full_false_by_eqNullSafe_operand_of_comparison : ~ C05_full.
-Proof. destruct C05_refuted_eqNullSafe_operand_of_comparison as (t & en & W & D & B). exact (bad_refutes gen_cfg t en W D B). Qed.
-Print Assumptions C05_full_false_by_eqNullSafe_operand_of_comparison.
-
-(* ---- signature: C05/eqNullSafe-operand-of-eqNullSafe *)
-(** col('a').eqNullSafe(col('b')).eqNullSafe(col('p'))   emits   "a" IS NOT DISTINCT FROM "b" IS NOT DISTINCT FROM "p" *)
-Theorem C05_refuted_eqNullSafe_operand_of_eqNullSafe : exists t en, uwf t = true /\ udom en t = true /\ bad gen_cfg en t = true.
-Proof.
-  exists (UNse (UNse (UCol "a"%string) (UCol "b"%string)) (UCol "p"%string)).
-  exists (mkEnv ["a"%string; "b"%string; "s"%string; "t"%string; "p"%string; "q"%string] [VNull; VNull; VNull; (VStr ""%string); VNull; (VBool true)] [("l"%string, [(VInt (10)%Z); (VInt (20)%Z); (VInt (30)%Z)])]).
-  vm_compute. repeat split.
-Qed.
-Corollary C05_full_false_by_eqNullSafe_operand_of_eqNullSafe : ~ C05_full.
-Proof. destruct C05_refuted_eqNullSafe_operand_of_eqNullSafe as (t & en & W & D & B). exact (bad_refutes gen_cfg t en W D B). Qed.
-Print Assumptions C05_full_false_by_eqNullSafe_operand_of_eqNullSafe.
-
-(* ---- signature: C05/eqNullSafe-operand-of-isNotNull *)
-(** col('a').eqNullSafe(col('b')).isNotNull()   emits   NOT "a" IS NOT DISTINCT FROM "b" IS NULL *)
-Theorem C05_refuted_eqNullSafe_operand_of_isNotNull : exists t en, uwf t = true /\ udom en t = true /\ bad gen_cfg en t = true.
-Proof.
-  exists (UIsNotNull (UNse (UCol "a"%string) (UCol "b"%string))).
-  exists (mkEnv ["a"%string; "b"%string; "s"%string; "t"%string; "p"%string; "q"%string] [VNull; VNull; VNull; (VStr ""%string); VNull; (VBool true)] [("l"%string, [(VInt (10)%Z); (VInt (20)%Z); (VInt (30)%Z)])]).
-  vm_compute. repeat split.
-Qed.
-Corollary C05_full_false_by_eqNullSafe_operand_of_isNotNull : ~ C05_full.
-Proof. destruct C05_refuted_eqNullSafe_operand_of_isNotNull as (t & en & W & D & B). exact (bad_refutes gen_cfg t en W D B). Qed.
-Print Assumptions C05_full_false_by_eqNullSafe_operand_of_isNotNull.
-
-(* ---- signature: C05/eqNullSafe-operand-of-isNull *)
-(** col('a').eqNullSafe(col('b')).isNull()   emits   "a" IS NOT DISTINCT FROM "b" IS NULL *)
-Theorem C05_refuted_eqNullSafe_operand_of_isNull : exists t en, uwf t = true /\ udom en t = true /\ bad gen_cfg en t = true.
-Proof.
-  exists (UIsNull (UNse (UCol "a"%string) (UCol "b"%string))).
-  exists (mkEnv ["a"%string; "b"%string; "s"%string; "t"%string; "p"%string; "q"%string] [VNull; VNull; VNull; (VStr ""%string); VNull; (VBool true)] [("l"%string, [(VInt (10)%Z); (VInt (20)%Z); (VInt (30)%Z)])]).
-  vm_compute. repeat split.
-Qed.
-Corollary C05_full_false_by_eqNullSafe_operand_of_isNull : ~ C05_full.
-Proof. destruct C05_refuted_eqNullSafe_operand_of_isNull as (t & en & W & D & B). exact (bad_refutes gen_cfg t en W D B). Qed.
-Print Assumptions C05_full_false_by_eqNullSafe_operand_of_isNull.
-
-(* ---- signature: C05/eqNullSafe-operand-of-isin *)
-(** col('a').eqNullSafe(col('b')).isin(True)   emits   "a" IS NOT DISTINCT FROM "b" IN (TRUE) *)
-Theorem C05_refuted_eqNullSafe_operand_of_isin : exists t en, uwf t = true /\ udom en t = true /\ bad gen_cfg en t = true.
-Proof.
-  exists (UIsin (UNse (UCol "a"%string) (UCol "b"%string)) [(VBool true)]).
-  exists (mkEnv ["a"%string; "b"%string; "s"%string; "t"%string; "p"%string; "q"%string] [(VInt (0)%Z); (VInt (0)%Z); (VStr "ab"%string); (VStr "ab"%string); (VBool true); (VBool true)] [("l"%string, [])]).
-  vm_compute. repeat split.
-Qed.
-Corollary C05_full_false_by_eqNullSafe_operand_of_isin : ~ C05_full.
-Proof. destruct C05_refuted_eqNullSafe_operand_of_isin as (t & en & W & D & B). exact (bad_refutes gen_cfg t en W D B). Qed.
-Print Assumptions C05_full_false_by_eqNullSafe_operand_of_isin.
-
 (* ---- signature: C05/getItem-column-index-not-offset *)
 (** col('l').getItem(col('a'))   emits   "l"["a"] *)
 Theorem C05_refuted_getItem_column_index_not_offset : exists t en, uwf t = true /\ udom en t = true /\ bad gen_cfg en t = true.
@@ -127,134 +19,3 @@ Corollary C05_full_false_by_getItem_column_index_not_offset : ~ C05_full.
 Proof. destruct C05_refuted_getItem_column_index_not_offset as (t & en & W & D & B). exact (bad_refutes gen_cfg t en W D B). Qed.
 Print Assumptions C05_full_false_by_getItem_column_index_not_offset.
 
-(* ---- signature: C05/isNotNull-operand-of-comparison *)
-(** (col('p').isNotNull() == lit(False)).isNotNull()   emits   NOT NOT "p" IS NULL = FALSE IS NULL *)
-Theorem C05_refuted_isNotNull_operand_of_comparison : exists t en, uwf t = true /\ udom en t = true /\ bad gen_cfg en t = true.
-Proof.
-  exists (UIsNotNull (UBin UEq (UIsNotNull (UCol "p"%string)) (ULit (VBool false)))).
-  exists (mkEnv ["a"%string; "b"%string; "s"%string; "t"%string; "p"%string; "q"%string] [VNull; VNull; VNull; (VStr ""%string); VNull; (VBool true)] [("l"%string, [(VInt (10)%Z); (VInt (20)%Z); (VInt (30)%Z)])]).
-  vm_compute. repeat split.
-Qed.
-Corollary C05_full_false_by_isNotNull_operand_of_comparison : ~ C05_full.
-Proof. destruct C05_refuted_isNotNull_operand_of_comparison as (t & en & W & D & B). exact (bad_refutes gen_cfg t en W D B). Qed.
-Print Assumptions C05_full_false_by_isNotNull_operand_of_comparison.
-
-(* ---- signature: C05/isNotNull-operand-of-eqNullSafe *)
-(** col('a').isNotNull().eqNullSafe(col('p'))   emits   NOT "a" IS NULL IS NOT DISTINCT FROM "p" *)
-Theorem C05_refuted_isNotNull_operand_of_eqNullSafe : exists t en, uwf t = true /\ udom en t = true /\ bad gen_cfg en t = true.
-Proof.
-  exists (UNse (UIsNotNull (UCol "a"%string)) (UCol "p"%string)).
-  exists (mkEnv ["a"%string; "b"%string; "s"%string; "t"%string; "p"%string; "q"%string] [VNull; VNull; VNull; (VStr ""%string); VNull; (VBool true)] [("l"%string, [(VInt (10)%Z); (VInt (20)%Z); (VInt (30)%Z)])]).
-  vm_compute. repeat split.
-Qed.
-Corollary C05_full_false_by_isNotNull_operand_of_eqNullSafe : ~ C05_full.
-Proof. destruct C05_refuted_isNotNull_operand_of_eqNullSafe as (t & en & W & D & B). exact (bad_refutes gen_cfg t en W D B). Qed.
-Print Assumptions C05_full_false_by_isNotNull_operand_of_eqNullSafe.
-
-(* ---- signature: C05/isNotNull-operand-of-isNotNull *)
-(** col('a').isNotNull().isNotNull()   emits   NOT NOT "a" IS NULL IS NULL *)
-Theorem C05_refuted_isNotNull_operand_of_isNotNull : exists t en, uwf t = true /\ udom en t = true /\ bad gen_cfg en t = true.
-Proof.
-  exists (UIsNotNull (UIsNotNull (UCol "a"%string))).
-  exists (mkEnv ["a"%string; "b"%string; "s"%string; "t"%string; "p"%string; "q"%string] [VNull; VNull; VNull; (VStr ""%string); VNull; (VBool true)] [("l"%string, [(VInt (10)%Z); (VInt (20)%Z); (VInt (30)%Z)])]).
-  vm_compute. repeat split.
-Qed.
-Corollary C05_full_false_by_isNotNull_operand_of_isNotNull : ~ C05_full.
-Proof. destruct C05_refuted_isNotNull_operand_of_isNotNull as (t & en & W & D & B). exact (bad_refutes gen_cfg t en W D B). Qed.
-Print Assumptions C05_full_false_by_isNotNull_operand_of_isNotNull.
-
-(* ---- signature: C05/isNotNull-operand-of-isNull *)
-(** col('a').isNotNull().isNull()   emits   NOT "a" IS NULL IS NULL *)
-Theorem C05_refuted_isNotNull_operand_of_isNull : exists t en, uwf t = true /\ udom en t = true /\ bad gen_cfg en t = true.
-Proof.
-  exists (UIsNull (UIsNotNull (UCol "a"%string))).
-  exists (mkEnv ["a"%string; "b"%string; "s"%string; "t"%string; "p"%string; "q"%string] [VNull; VNull; VNull; (VStr ""%string); VNull; (VBool true)] [("l"%string, [(VInt (10)%Z); (VInt (20)%Z); (VInt (30)%Z)])]).
-  vm_compute. repeat split.
-Qed.
-Corollary C05_full_false_by_isNotNull_operand_of_isNull : ~ C05_full.
-Proof. destruct C05_refuted_isNotNull_operand_of_isNull as (t & en & W & D & B). exact (bad_refutes gen_cfg t en W D B). Qed.
-Print Assumptions C05_full_false_by_isNotNull_operand_of_isNull.
-
-(* ---- signature: C05/isNull-operand-of-comparison *)
-(** (col('p') == col('a').isNull())   emits   "p" = "a" IS NULL *)
-Theorem C05_refuted_isNull_operand_of_comparison : exists t en, uwf t = true /\ udom en t = true /\ bad gen_cfg en t = true.
-Proof.
-  exists (UBin UEq (UCol "p"%string) (UIsNull (UCol "a"%string))).
-  exists (mkEnv ["a"%string; "b"%string; "s"%string; "t"%string; "p"%string; "q"%string] [VNull; VNull; VNull; (VStr ""%string); VNull; (VBool true)] [("l"%string, [(VInt (10)%Z); (VInt (20)%Z); (VInt (30)%Z)])]).
-  vm_compute. repeat split.
-Qed.
-Corollary C05_full_false_by_isNull_operand_of_comparison : ~ C05_full.
-Proof. destruct C05_refuted_isNull_operand_of_comparison as (t & en & W & D & B). exact (bad_refutes gen_cfg t en W D B). Qed.
-Print Assumptions C05_full_false_by_isNull_operand_of_comparison.
-
-(* ---- signature: C05/isNull-operand-of-eqNullSafe *)
-(** col('p').eqNullSafe(col('a').isNull())   emits   "p" IS NOT DISTINCT FROM "a" IS NULL *)
-Theorem C05_refuted_isNull_operand_of_eqNullSafe : exists t en, uwf t = true /\ udom en t = true /\ bad gen_cfg en t = true.
-Proof.
-  exists (UNse (UCol "p"%string) (UIsNull (UCol "a"%string))).
-  exists (mkEnv ["a"%string; "b"%string; "s"%string; "t"%string; "p"%string; "q"%string] [VNull; VNull; VNull; (VStr ""%string); VNull; (VBool true)] [("l"%string, [(VInt (10)%Z); (VInt (20)%Z); (VInt (30)%Z)])]).
-  vm_compute. repeat split.
-Qed.
-Corollary C05_full_false_by_isNull_operand_of_eqNullSafe : ~ C05_full.
-Proof. destruct C05_refuted_isNull_operand_of_eqNullSafe as (t & en & W & D & B). exact (bad_refutes gen_cfg t en W D B). Qed.
-Print Assumptions C05_full_false_by_isNull_operand_of_eqNullSafe.
-
-(* ---- signature: C05/like-operand-of-isin *)
-(** col('s').like('a%').isin(True)   emits   "s" LIKE 'a%' IN (TRUE) *)
-Theorem C05_refuted_like_operand_of_isin : exists t en, uwf t = true /\ udom en t = true /\ bad gen_cfg en t = true.
-Proof.
-  exists (UIsin (ULike (UCol "s"%string) "a%"%string) [(VBool true)]).
-  exists (mkEnv ["a"%string; "b"%string; "s"%string; "t"%string; "p"%string; "q"%string] [VNull; VNull; VNull; (VStr ""%string); VNull; (VBool true)] [("l"%string, [(VInt (10)%Z); (VInt (20)%Z); (VInt (30)%Z)])]).
-  vm_compute. repeat split.
-Qed.
-Corollary C05_full_false_by_like_operand_of_isin : ~ C05_full.
-Proof. destruct C05_refuted_like_operand_of_isin as (t & en & W & D & B). exact (bad_refutes gen_cfg t en W D B). Qed.
-Print Assumptions C05_full_false_by_like_operand_of_isin.
-
-(* ---- signature: C05/not-operand-of-comparison *)
-(** ((~col('q')) == lit(False)).isNull()   emits   NOT ("q") = FALSE IS NULL *)
-Theorem C05_refuted_not_operand_of_comparison : exists t en, uwf t = true /\ udom en t = true /\ bad gen_cfg en t = true.
-Proof.
-  exists (UIsNull (UBin UEq (UNot (UCol "q"%string)) (ULit (VBool false)))).
-  exists (mkEnv ["a"%string; "b"%string; "s"%string; "t"%string; "p"%string; "q"%string] [VNull; VNull; VNull; (VStr ""%string); VNull; (VBool true)] [("l"%string, [(VInt (10)%Z); (VInt (20)%Z); (VInt (30)%Z)])]).
-  vm_compute. repeat split.
-Qed.
-Corollary C05_full_false_by_not_operand_of_comparison : ~ C05_full.
-Proof. destruct C05_refuted_not_operand_of_comparison as (t & en & W & D & B). exact (bad_refutes gen_cfg t en W D B). Qed.
-Print Assumptions C05_full_false_by_not_operand_of_comparison.
-
-(* ---- signature: C05/not-operand-of-eqNullSafe *)
-(** (~col('p')).eqNullSafe(col('p'))   emits   NOT ("p") IS NOT DISTINCT FROM "p" *)
-Theorem C05_refuted_not_operand_of_eqNullSafe : exists t en, uwf t = true /\ udom en t = true /\ bad gen_cfg en t = true.
-Proof.
-  exists (UNse (UNot (UCol "p"%string)) (UCol "p"%string)).
-  exists (mkEnv ["a"%string; "b"%string; "s"%string; "t"%string; "p"%string; "q"%string] [VNull; VNull; VNull; (VStr ""%string); VNull; (VBool true)] [("l"%string, [(VInt (10)%Z); (VInt (20)%Z); (VInt (30)%Z)])]).
-  vm_compute. repeat split.
-Qed.
-Corollary C05_full_false_by_not_operand_of_eqNullSafe : ~ C05_full.
-Proof. destruct C05_refuted_not_operand_of_eqNullSafe as (t & en & W & D & B). exact (bad_refutes gen_cfg t en W D B). Qed.
-Print Assumptions C05_full_false_by_not_operand_of_eqNullSafe.
-
-(* ---- signature: C05/not-operand-of-isNotNull *)
-(** (~col('p')).isNotNull()   emits   NOT NOT ("p") IS NULL *)
-Theorem C05_refuted_not_operand_of_isNotNull : exists t en, uwf t = true /\ udom en t = true /\ bad gen_cfg en t = true.
-Proof.
-  exists (UIsNotNull (UNot (UCol "p"%string))).
-  exists (mkEnv ["a"%string; "b"%string; "s"%string; "t"%string; "p"%string; "q"%string] [VNull; VNull; VNull; (VStr ""%string); VNull; (VBool true)] [("l"%string, [(VInt (10)%Z); (VInt (20)%Z); (VInt (30)%Z)])]).
-  vm_compute. repeat split.
-Qed.
-Corollary C05_full_false_by_not_operand_of_isNotNull : ~ C05_full.
-Proof. destruct C05_refuted_not_operand_of_isNotNull as (t & en & W & D & B). exact (bad_refutes gen_cfg t en W D B). Qed.
-Print Assumptions C05_full_false_by_not_operand_of_isNotNull.
-
-(* ---- signature: C05/not-operand-of-isNull *)
-(** (~col('p')).isNull()   emits   NOT ("p") IS NULL *)
-Theorem C05_refuted_not_operand_of_isNull : exists t en, uwf t = true /\ udom en t = true /\ bad gen_cfg en t = true.
-Proof.
-  exists (UIsNull (UNot (UCol "p"%string))).
-  exists (mkEnv ["a"%string; "b"%string; "s"%string; "t"%string; "p"%string; "q"%string] [VNull; VNull; VNull; (VStr ""%string); VNull; (VBool true)] [("l"%string, [(VInt (10)%Z); (VInt (20)%Z); (VInt (30)%Z)])]).
-  vm_compute. repeat split.
-Qed.
-Corollary C05_full_false_by_not_operand_of_isNull : ~ C05_full.
-Proof. destruct C05_refuted_not_operand_of_isNull as (t & en & W & D & B). exact (bad_refutes gen_cfg t en W D B). Qed.
-Print Assumptions C05_full_false_by_not_operand_of_isNull.
